@@ -45,7 +45,10 @@ What is a theorem here and what is not:
   with exactly one reply iff the peer's node-management feature is still known (`c05_still_serves`,
   `c05_wedged_is_silent`). The invariant `c05_nm_present` is *refuted* for the code as written by three witnesses
   (`c05_nm_present_refuted`), holds on the region `c05_nm_present_partial`, and is *proved* for the member with
-  the two guards (`c05_nm_present`).
+  the two guards (`c05_nm_present`). The bridge between the two models is a theorem (`c05_nm_bridge`, composition
+  `c05_still_serves_after_discovery`), and in the dispatch model the clause holds at full strength — all histories
+  of operations of any peers, every peer that is not itself disconnected (`c05_still_serves_every_peer`; lemmas
+  `Spine/DispatchServe.lean`).
 * **Not a theorem here** (`Res.outside` of `handle`): payloads handled by the generic feature layer and the update
   engine (read / reply / notify / write of function data with filters: the model of C02 / C04, whose repaired
   member is total at the two sites the mutator found there — `Spine.Props.C02.c02_repaired_selectormatch_never_panics`,
